@@ -59,6 +59,8 @@ use Reply::*;
 
 mod structs;
 pub(crate) use structs::*;
+#[cfg(simple_irc_server_verif)]
+pub(crate) mod verif;
 
 pub(crate) struct MainState {
     config: MainConfig,
@@ -177,11 +179,15 @@ impl MainState {
     }
 
     pub(crate) async fn process(&self, conn_state: &mut ConnState) -> Result<(), String> {
+        #[cfg(simple_irc_server_verif)]
+        let verif_guard = verif::gate(conn_state).await;
         // use conversion error to string to avoid problems with thread safety
         let res = self
             .process_internal(conn_state)
             .await
             .map_err(|e| e.to_string());
+        #[cfg(simple_irc_server_verif)]
+        verif::ungate(conn_state, verif_guard);
         conn_state.stream.flush().await.map_err(|e| e.to_string())?;
         res
     }
